@@ -28,7 +28,7 @@ na = [{"property_id": p, "reason": NOT_APPLICABLE.get(p, "check not built yet in
       for p in props if p not in CHECKS]
 m = {
     "version": 1,
-    "setup_cmd": "python3 vlib/build.py plain:full san:full && python3 vlib/selftest.py",
+    "setup_cmd": "python3 vlib/build.py plain:full san:full schedsan:core tsan:core && python3 vlib/selftest.py",
     "hooks": {
         "guard": "EBUSD_VERIF",
         "enable": "no source hooks are needed: harnesses compile /repo/src directly (vlib/build.py), reach private state "
